@@ -1478,6 +1478,8 @@ class GtkDocCommentBlockParser(object):
         comment_block_pos = Position(filename, lineno)
         comment_lines = re.sub(LINE_BREAK_RE, '\n', comment).split('\n')
         comment_lines_len = len(comment_lines)
+        source_lines = list(comment_lines)
+        start_token_line_has_text = False
 
         # Check for the start of the comment block.
         result = COMMENT_BLOCK_START_RE.match(comment_lines[0])
@@ -1504,8 +1506,10 @@ class GtkDocCommentBlockParser(object):
                      position, None, result.start('comment'), comment_lines[0])
 
                 comment_lines[0] = comment
+                start_token_line_has_text = True
             else:
                 del comment_lines[0]
+                del source_lines[0]
         else:
             # Not a GTK-Doc comment block.
             return None
@@ -1527,9 +1531,10 @@ class GtkDocCommentBlockParser(object):
                      'not be preceded by comment text:',
                      position, None, result.end('comment'), comment_lines[-1])
 
-                comment_lines[-1] = comment
+                comment_lines[-1] = comment_lines[-1][:result.start('token')]
             else:
                 del comment_lines[-1]
+                del source_lines[-1]
         else:
             # Not a GTK-Doc comment block.
             return None
@@ -1545,13 +1550,16 @@ class GtkDocCommentBlockParser(object):
         current_part = None
         returns_seen = False
 
-        for line in comment_lines:
+        if start_token_line_has_text:
+            # the text behind the start token stands on the start token's line
+            lineno -= 1
+
+        for line, original_line in zip(comment_lines, source_lines):
             lineno += 1
             position = Position(filename, lineno)
 
-            # Store the original line (without \n) and column offset
-            # so we can generate meaningful warnings later on.
-            original_line = line
+            # original_line is the source line (without \n); the column offset
+            # lets us generate meaningful warnings later on.
             column_offset = 0
 
             # Store indentation level of the comment (before the ' * ')
